@@ -264,8 +264,10 @@ type doc struct {
 	Wrapper string // "L" legacy Metablock, "D" DSSE envelope
 	Payload any    // intoto.Link / intoto.Layout as generated
 	Sigs    []intoto.Signature
-	Outer   *Node // tree of the dumped file (signatures injected for DSSE)
+	Outer   *Node // tree of the dumped file (signatures injected for DSSE); nil when the file is not JSON
 	Inner   *Node // DSSE: tree of the payload JSON
+	Raw     string // the bytes Dump left on disk
+	Edited  bool   // Outer differs from Raw (signatures injected)
 }
 
 var tmpDir string
@@ -283,8 +285,17 @@ func tmpFile(name string) string {
 
 // makeDoc writes the metadata with the library's own writer and reads the file back as a tree.
 func makeDoc(w string, payload any, sigs []intoto.Signature) (*doc, error) {
+	os.Remove(tmpFile("dump.json"))
+	d, err := dumpDoc(w, payload, sigs)
+	if err == nil && d.Outer == nil {
+		return nil, fmt.Errorf("dumped file is not JSON")
+	}
+	return d, err
+}
+
+// dumpDoc dumps onto the path WITHOUT removing what is there (Dump must replace the file).
+func dumpDoc(w string, payload any, sigs []intoto.Signature) (*doc, error) {
 	path := tmpFile("dump.json")
-	os.Remove(path)
 	if w == "L" {
 		mb := intoto.Metablock{Signed: payload, Signatures: sigs}
 		if err := mb.Dump(path); err != nil {
@@ -303,14 +314,16 @@ func makeDoc(w string, payload any, sigs []intoto.Signature) (*doc, error) {
 	if err != nil {
 		return nil, err
 	}
+	d := &doc{Wrapper: w, Payload: payload, Sigs: sigs, Raw: string(b)}
 	outer, err := Parse(b)
 	if err != nil {
-		return nil, fmt.Errorf("dumped file is not JSON: %v", err)
+		return d, nil // not JSON: Outer stays nil
 	}
-	d := &doc{Wrapper: w, Payload: payload, Sigs: sigs, Outer: outer}
+	d.Outer = outer
 	if w == "D" {
 		// signatures are injected by editing the document (no real signing needed)
 		if len(sigs) > 0 {
+			d.Edited = true
 			arr := &Node{Kind: KArr, Arr: []*Node{}}
 			for _, s := range sigs {
 				arr.Arr = append(arr.Arr, Obj(Member{"keyid", Str(s.KeyID)}, Member{"sig", Str(s.Sig)}))
